@@ -53,12 +53,29 @@ JudgeEncP(s, o, page) ==
        ELSE IF SpecDecode(data) # s THEN "enc:paged:roundtrip"
        ELSE "ok"
 
+\* the spec's own lemmas on this block: automaton form = declarative form, v1 form = paged form + marker,
+\* run matcher = equality of decoded strings
+SpecLemmas(blk, other) ==
+  LET wf == WellFormed(blk)
+      want == SpecDecode(blk) IN
+  IF StreamWellFormed(blk) # wf THEN "spec:stream-wellformed"
+  ELSE IF WellFormedV1(blk) # StreamWellFormedV1(blk) THEN "spec:stream-wellformed-v1"
+  ELSE IF WellFormedV1(blk) /\ SpecDecodeV1(blk) # StreamDecode(BodyV1(blk)) THEN "spec:stream-decode-v1"
+  ELSE IF ~wf THEN (IF MatchRuns(blk, Norm(RunsOf(want))) = -1 THEN "spec:match-accepts-malformed" ELSE "ok")
+  ELSE IF StreamDecode(blk) # want THEN "spec:stream-decode"
+  ELSE IF SpecDecodeV1(blk \o Marker) # want \/ ~WellFormedV1(blk \o Marker) THEN "spec:v1-vs-paged"
+  ELSE IF (MatchRuns(blk, Norm(RunsOf(other))) = -1) # (want = other) THEN "spec:match-vs-decode"
+  ELSE IF MatchRuns(blk, Norm(RunsOf(want))) # -1 THEN "spec:match-vs-decode"
+  ELSE IF MatchRunsV1(blk \o Marker, Norm(RunsOf(want))) # -1 THEN "spec:match-v1"
+  ELSE "ok"
+
 JudgeDec(blk, real, ind, indv1) ==
-  IF WellFormed(blk) # (ind # Err) THEN "dec:ind:wellformedness"
+  LET lem == SpecLemmas(blk, Str(DecAlpha, n, (idx + 1) % Pow(5, n))) IN
+  IF lem # "ok" THEN lem
+  ELSE IF WellFormed(blk) # (ind # Err) THEN "dec:ind:wellformedness"
   ELSE IF ~WellFormed(blk) THEN "ok"
   ELSE LET want == SpecDecode(blk) IN
-       IF SpecDecodeV1(blk \o Marker) # want \/ ~WellFormedV1(blk \o Marker) THEN "spec:v1-vs-paged"
-       ELSE IF real # want THEN "dec:real"
+       IF real # want THEN "dec:real"
        ELSE IF ind # want THEN "dec:ind"
        ELSE IF indv1 # want THEN "dec:ind-v1"
        ELSE "ok"
